@@ -127,6 +127,7 @@ def run(ctx):
     _transforms(ctx)
     _arm_shift_amounts(ctx)
     _thumb_scaled_offsets(ctx)
+    _x86_high_byte_registers(ctx)
     arm_addressing_bits(ctx, "C08.R9")
 
 
@@ -498,6 +499,32 @@ def _thumb_scaled_offsets(ctx):
             continue
         ctx.ob("C08.R12", site, "offset v (multiple of %d, 0 <= v/%d < %d) is stored as v/%d" % (size, size, 2 ** width, size), not wrong, construct="scaled:" + cname, node=enc, detail="(offset, stored): %s" % wrong[:5])
         ctx.ob("C08.R12", site, "an offset that is not a multiple of %d%s is rejected" % (size, "" if gate == "token" else ", negative or too large"), not not_rejected, construct="rejects:" + cname, node=enc, detail="(offset, stored) accepted: %s" % not_rejected[:6])
+
+
+def _x86_high_byte_registers(ctx):
+    """R13.  Intel SDM vol. 2, 2.2.1.2 / table 3-1: with ANY REX prefix present the byte-register numbers 4..7 select spl, bpl, sil, dil;
+    ah, ch, dh, bh are only encodable without a REX prefix.  ppci's 8-bit instruction classes list RexToken in `tokens` unconditionally,
+    so a high-byte register that the register file offers to the assembler is printed as `dh` and encoded as `sil`."""
+    ctx.rule("C08.R13", "x86-64: an 8-bit register with number 4..7 that names a high byte (ah, ch, dh, bh) is only offered when 8-bit instructions can be encoded without a REX prefix", floor=1)
+    rrel, irel = "ppci/arch/x86_64/registers.py", "ppci/arch/x86_64/instructions.py"
+    high = []
+    for n in ctx.project.module(rrel).tree.body:
+        if isinstance(n, ast.Assign) and isinstance(n.value, ast.Call) and norm(n.value.func) == "Register8" and len(n.value.args) >= 2:
+            name, num = _tc8(n.value.args[0]), _tc8(n.value.args[1])
+            if isinstance(num, int) and 4 <= num <= 7 and isinstance(name, str) and name.endswith("h"):
+                high.append((name, num, n))
+    always_rex = []
+    for c in [c for c in ctx.project.module(irel).tree.body if isinstance(c, ast.ClassDef)]:
+        uses8 = any(isinstance(n, ast.Assign) and isinstance(n.value, ast.Call) and norm(n.value.func) == "Operand" and len(n.value.args) >= 2 and norm(n.value.args[1]) == "Register8" for n in c.body)
+        toks = [n.value for n in c.body if isinstance(n, ast.Assign) and norm(n.targets[0]) == "tokens" and isinstance(n.value, ast.List)]
+        if uses8 and toks and any(norm(e) == "RexToken" for e in toks[0].elts):
+            always_rex.append(c.name)
+    ctx.saw("x86-8bit-classes-with-rex", ", ".join(always_rex))
+    if not high:
+        ctx.ob("C08.R13", rrel, "no high-byte register is offered", True, construct="no-high-byte-registers")
+    for name, num, node in high:
+        ctx.ob("C08.R13", rrel + ":" + name, "`%s` (number %d) can be encoded: no 8-bit instruction class carries an unconditional REX prefix" % (name, num), not always_rex, construct="high-byte:" + name, node=node,
+               detail="%d classes with a Register8 operand list RexToken unconditionally (e.g. %s): the bytes name %s" % (len(always_rex), ", ".join(always_rex[:3]), {4: "spl", 5: "bpl", 6: "sil", 7: "dil"}[num]))
 
 
 def arm_addressing_bits(ctx, rid):
